@@ -56,9 +56,11 @@ def sig_oracle(modn=(), int_msg=False, blocks=False, ok_malleations=(), extra=No
             out.probe('legal-malleation')
         if 'statements-swapped' in s.notes:
             ch.append('stmt')
-        if any(f in KEYFIELDS for f in ch) and any(f not in KEYFIELDS for f in ch) and s.scheme not in ('pokor', 'sokor'):
-            # the adversary replaced key material and signature together: the result may be a valid
-            # triple under the substituted key (e.g. z := 1 with sig := identity); nothing asserted
+        nkey = sum(1 for f in ch if f in KEYFIELDS)
+        if ((nkey and any(f not in KEYFIELDS for f in ch)) or nkey >= 2) and s.scheme not in ('pokor', 'sokor'):
+            # the adversary replaced key material and signature together, or several key components
+            # consistently (pk := 2 pk with z := z^2): the result may be a valid triple under the
+            # substituted key; nothing asserted
             out.probe('key-and-signature-both-substituted')
             return
         kinds = tuple(sorted('%s:%s' % (f, s.m[f]['kind']) for f in ch if f in s.m))
@@ -321,3 +323,72 @@ SCHEMES.update({
                   opts=lambda rng: dict(k=rng.below(5), n=rng.below(5), cls=rng.below(5))),
     'ped': Spec('C06', 4, dict(c='ec', r='bn', x='bn'), o_ped),
 })
+
+
+# ----------------------------------------------------------------------------- batch 3
+
+def etrs_extra(s, ctx, v, out):
+    # one actual signer: a threshold of two must never verify
+    if s.ver.get('ver2') == '1':
+        v.bad('threshold-overstated', 'a ring signature with one signer verified for threshold 2')
+
+
+def o_mpss(s, ctx, v, out):
+    if 'ver' not in s.ver or 'plain' not in s.ver:
+        return
+    n = ctx['param']['n']
+    got, plain = s.ver['ver'], s.ver['plain']
+    out.evals += 1
+
+    def ch(f):
+        r = s.m[f]
+        if r['dec'] != 'ok':
+            return True
+        if r['type'] == 'bn':
+            return sint(r['val']) % n != int.from_bytes(r['orig'], 'big') % n
+        return s.changed(f)
+    changed = [f for f in s.m if ch(f)]
+    out.keys.add(('mpss', tuple(s.faults()), got, plain, bool(changed)))
+    if got != plain:
+        v.bad('equivalent-verifiers-disagree', 'the two-party verifier says %s, the plain verifier on the recombined values says %s' % (got, plain))
+    if not changed and got != '1':
+        v.bad('expected=accept|got=reject', 'an honest two-party signature was rejected')
+    if len(changed) == 1 and got == '1':
+        v.bad('expected=reject|got=accept', 'accepted although %s changed' % changed)
+
+
+def o_shpe(s, ctx, v, out):
+    if 'dec' not in s.rc:
+        return
+    out.evals += 1
+    out.keys.add(('shpe', tuple(s.faults()), s.rc['dec'][0], s.opts.get('cls'), s.opts.get('n')))
+    if not s.changed('ct'):
+        if s.rc['dec'][0] != '0' or s.out.get('dec') != s.out.get('pt'):
+            v.bad('roundtrip', 'decryption returned %s for plaintext %s (rc %s)' % (s.out.get('dec'), s.out.get('pt'), s.rc['dec']))
+
+
+def o_match(s, ctx, v, out):
+    if 'match' not in s.out:
+        return
+    out.evals += 1
+    changed = [f for f in s.m if s.changed(f)]
+    out.keys.add((s.scheme, tuple(s.faults()), s.out['match'], bool(changed)))
+    if not changed and s.out['match'] != 1:
+        v.bad('shares-do-not-recombine', 'honest parties: the recombined result differs from the plain computation')
+
+
+SCHEMES.update({
+    'etrs': Spec('C05', 5, dict(pp='ec', td3='bn', y3='bn', ry0='bn', h0='ec', pk0='ec', c00='bn', c01='bn', r00='bn', r01='bn', msg='bytes'),
+                 sig_oracle(extra=etrs_extra), opts=lambda rng: dict(k=rng.below(3))),
+    'smlers': Spec('C05', 5, dict(pp='ec', td='bn', h0='ec', pk0='ec', sc00='bn', sc01='bn', sr00='bn', sr01='bn', tau0='ec', c00='bn',
+                                  c01='bn', r00='bn', r01='bn', tau1='ec', c10='bn', msg='bytes'),
+                   sig_oracle(), opts=lambda rng: dict(k=rng.below(3))),
+    'cmlhs': Spec('C05', 5, dict(r='g1', s='g2', as0='g1', as1='g1', pk0='g2', pk1='g2', y0='g2', y1='g2', m='bn'),
+                  sig_oracle(modn=('m',), vers=('ver', 'onv')), pc=True, weight=6,
+                  opts=lambda rng: dict(cls=rng.below(2), ord=rng.below(1 << 16))),
+    'mpss': Spec('C05', 4, dict(a='g1', b0='g1', b1='g1', m0='bn', m1='bn'), o_mpss, pc=True, weight=6),
+    'shpe': Spec('C06', 4, dict(ct='bn'), o_shpe, opts=lambda rng: dict(cls=rng.below(2), n=rng.choice([0, 0, 1, 2])), weight=6),
+    'mpcg1': Spec('C06', 5, dict(l1='bn', d1='g1'), o_match, pc=True, weight=5),
+    'mpcpc': Spec('C06', 5, dict(d1='g1', e1='g2'), o_match, pc=True, weight=5),
+})
+P.KEYFIELDS = KEYFIELDS
